@@ -771,9 +771,9 @@ def stepCfg (cfg : Cfg) (s : St) (line : String) : St × String :=
     | .zbdd d => let (d', o) := stepK KZbdd.kind cfg d line; (.zbdd d', o)
 
 /-- the code as it is in /repo -/
-def proto : Proto := { σ := St, init := .none, step := stepCfg Cfg.repo }
+def proto : Proto := { σ := St, init := .none, step := stepCfg Cfg.beforeFix }
 
 /-- with `oxidd_zbdd_make_node` repaired (proposed fix Ffi-1) -/
-def protoFixed : Proto := { σ := St, init := .none, step := stepCfg Cfg.fixed }
+def protoFixed : Proto := { σ := St, init := .none, step := stepCfg Cfg.current }
 
 end OxiddModel.Ffi
